@@ -128,7 +128,7 @@ impl SortingAttr {
 
                 SortingAttr::Name => 'ordering: {
                     // Compare as integers.
-                    match (a.parse::<u128>(), a.parse::<u128>()) {
+                    match (a.parse::<u128>(), b.parse::<u128>()) {
                         (Ok(a_u128), Ok(b_u128)) => {
                             break 'ordering a_u128.cmp(&b_u128)
                         }
@@ -149,7 +149,7 @@ impl SortingAttr {
 
                         (Err(_), Err(_)) => {
                             if let (Ok(a_i128), Ok(b_i128)) =
-                                (a.parse::<i128>(), a.parse::<i128>())
+                                (a.parse::<i128>(), b.parse::<i128>())
                             {
                                 break 'ordering a_i128.cmp(&b_i128);
                             }
